@@ -567,3 +567,23 @@ def transition_keys(log):
                     keys.append("%d.%d" % (state, idx))
                     break
     return keys
+
+
+def isolated_stream(sources, options=(False, True, True), fresh_per_source=False, hashseed="0", timeout=300):
+    """The sources through one GherkinEvents stream in a FRESH interpreter (vf/iso_worker.py): nothing this process has done
+    before can influence the result.  -> list (per source) of envelope lists, or None when the worker failed."""
+    import json
+    import subprocess
+    import sys
+    from .common import PY_ROOT, VERIF_DIR
+    spec = {"py_root": PY_ROOT, "sources": [{"uri": u, "data": d} for u, d in sources], "options": list(options), "fresh_per_source": fresh_per_source}
+    env = dict(os.environ, PYTHONHASHSEED=str(hashseed), PYTHONDONTWRITEBYTECODE="1", PYTHONIOENCODING="utf-8:surrogatepass")
+    env.pop("PYTHONPATH", None)
+    p = subprocess.run([sys.executable, "-B", os.path.join(VERIF_DIR, "vf", "iso_worker.py")], input=json.dumps(spec).encode("utf-8", "surrogatepass"),
+                       capture_output=True, env=env, timeout=timeout)
+    if p.returncode != 0:
+        return None
+    try:
+        return json.loads(p.stdout.decode("utf-8", "surrogatepass"))
+    except Exception:
+        return None
